@@ -906,13 +906,13 @@ Proof.
       * right. split; [intros o [Ho|Ho]; [subst; exact T | auto] | exact B].
 Qed.
 
-Theorem pn_monitor_parts : forall endt mad l, pn_monitor endt mad l = true ->
+Theorem pn_monitor_parts : forall endt mad0 mad1 l, pn_monitor endt mad0 mad1 l = true ->
   (forall ep sp, (ep = 0 \/ ep = 1) -> (sp = 0 \/ sp = 1 \/ sp = 2) ->
      incr1 ep sp (-1) l = true /\ ack1 ep sp [] l = true) /\
-  ackt 0 (mad + ACK_SLACK_US) endt [] (-1) l = true /\
-  ackt 1 (mad + ACK_SLACK_US) endt [] (-1) l = true.
+  ackt 0 (mad0 + ACK_SLACK_US) endt [] (-1) l = true /\
+  ackt 1 (mad1 + ACK_SLACK_US) endt [] (-1) l = true.
 Proof.
-  intros endt mad l H. unfold pn_monitor in H. repeat rewrite andb_true_iff in H.
+  intros endt mad0 mad1 l H. unfold pn_monitor in H. repeat rewrite andb_true_iff in H.
   destruct H as [[[_ A] B] C]. split; [|split; assumption].
   intros ep sp Hep Hsp. rewrite forallb_forall in A.
   assert (Iep : In ep [0; 1]) by (cbn [In]; destruct Hep; subst; auto).
@@ -922,11 +922,11 @@ Proof.
 Qed.
 
 Theorem pn_judge_parts : forall case out, e2e_pn_judge case out = true ->
-  exists rws, take_rows 8 (nz out 6) (skipn 7 out) = Some (rws, []) /\
-    pn_monitor (nz out 3) (nz out 4) (map mk_xrow rws) = true.
+  exists rws, take_rows 8 (nz out 6) (skipn 8 out) = Some (rws, []) /\
+    pn_monitor (nz out 3) (nz out 4) (nz out 7) (map mk_xrow rws) = true.
 Proof.
   intros case out H. unfold e2e_pn_judge in H. destruct (negb _); [discriminate|].
-  destruct (take_rows 8 (nz out 6) (skipn 7 out)) as [[rws rest]|]; [|discriminate].
+  destruct (take_rows 8 (nz out 6) (skipn 8 out)) as [[rws rest]|]; [|discriminate].
   destruct rest; [|discriminate]. exists rws. auto.
 Qed.
 
